@@ -26,6 +26,7 @@ class ConstGen:
         self.n = 0
         self.by_value = {}       # (type, value) -> const name
         self.wrap_in_minmax = False
+        self.usize_may_wrap = False     # usize constants that are array sizes never wrap; those used as values may
 
     def ext(self, t, v):
         self.n += 1
@@ -42,7 +43,7 @@ class ConstGen:
         leaves the range of t (the operands of min / max: there wrapping per operation and wrapping once at the end
         differ, see the recorded finding); usize constants never wrap (they are array sizes)."""
         r = self.rng.random()
-        nowrap = nowrap or t == "usize"
+        nowrap = nowrap or (t == "usize" and not self.usize_may_wrap)
         if t == "bool" or d <= 0 or r < 0.35:
             return self.ext(t, v) if self.rng.random() < 0.75 else self.lit(t, v)
         lo, hi = T.int_range(t)
@@ -259,6 +260,7 @@ def gen_value_case(seed, cid, wrap_in_minmax=False):
     g = gen_prog.ProgGen(rng, max_depth=2, features={"match", "loops", "structs", "assign", "shadow"})
     cg = ConstGen(rng)
     cg.wrap_in_minmax = wrap_in_minmax
+    cg.usize_may_wrap = True
     orig = g.val_expr
 
     used = {}
@@ -326,6 +328,15 @@ def run(ctx):
         cases.append({"id": max(c["id"] for c in cases) + 1, "seed": 0, "kind": "value-signed-const-ref-under-minmax",
                       "src_a": f"const A: i8 = PARTY_0::X;\nconst B: i8 = {fn}(A, {other}i8);\npub fn main(x: i8) -> i8 {{ x ^ B }}\n",
                       "src_b": f"pub fn main(x: i8) -> i8 {{ x ^ {want}i8 }}\n", "params": [["x", {"k": "int", "t": "i8"}]], "args": [[0], [-1]], "cg": cg3})
+    # the same for usize (32 bits): the sum wraps past 2^32, a later constant compares it
+    cg4 = ConstGen(random.Random(0))
+    cg4.decls.append(("A", "usize", "PARTY_0::X + 4294967290usize", ["add"]))
+    cg4.decls.append(("LO", "usize", "min(A, 100usize)", ["min"]))
+    cg4.decls.append(("HI", "usize", "max(A, 100usize)", ["max"]))
+    cg4.supplied = {"PARTY_0": {"X": ("usize", 10)}}
+    cases.append({"id": max(c["id"] for c in cases) + 1, "seed": 0, "kind": "value-usize-const-ref-wraps",
+                  "src_a": "const A: usize = PARTY_0::X + 4294967290usize;\nconst LO: usize = min(A, 100usize);\nconst HI: usize = max(A, 100usize);\npub fn main(x: usize) -> usize { x ^ LO ^ (HI + HI) }\n",
+                  "src_b": "pub fn main(x: usize) -> usize { x ^ 4usize ^ (100usize + 100usize) }\n", "params": [["x", {"k": "int", "t": "usize"}]], "args": [[0], [7]], "cg": cg4})
     # a constant whose own definition wraps, referred to by a later constant under max (repaired defect 7d34fdc)
     cg2 = ConstGen(random.Random(0))
     cg2.decls.append(("A", "u8", "PARTY_0::X + 200u8", ["add"]))
